@@ -265,12 +265,13 @@ namespace
     }
 
     // run a whole job through the C API in a child: stdout -> <prefix>.out, stderr -> <prefix>.err; result "rc <n>"
-    std::string run_child(std::string const& prefix, std::function<int()> fn)
+    std::string run_child(std::string const& cwd, std::string const& prefix, std::function<int()> fn)
     {
         std::cout.flush();
         pid_t pid = fork();
         if (pid < 0) { return "?fork"; }
         if (pid == 0) {
+            if (chdir(cwd.c_str()) != 0) { _exit(96); }
             int o = open((prefix + ".out").c_str(), O_WRONLY | O_CREAT | O_TRUNC, 0644);
             int e = open((prefix + ".err").c_str(), O_WRONLY | O_CREAT | O_TRUNC, 0644);
             int nul = open("/dev/null", O_RDONLY);
@@ -296,12 +297,14 @@ static Reg r_cfg_json("cfg_json", [](std::vector<std::string> const& a) -> std::
 static Reg r_cfgf_argv("cfgf_argv", [](std::vector<std::string> const& a) -> std::string { return in_child([&a]() { return cfg_argv(a); }); });
 static Reg r_cfgf_json("cfgf_json", [](std::vector<std::string> const& a) -> std::string { return in_child([&a]() { return cfg_json(a); }); });
 
+// run_argv <cwd> <prefix> <arg>... ; run_json <cwd> <prefix> <json>   (all hex)
 static Reg r_run_argv("run_argv", [](std::vector<std::string> const& a) -> std::string {
-    std::string prefix = unhex(a.at(0));
+    std::string cwd = unhex(a.at(0));
+    std::string prefix = unhex(a.at(1));
     std::vector<std::string> args;
     args.push_back("qpdf");
-    for (size_t i = 1; i < a.size(); ++i) { args.push_back(unhex(a[i])); }
-    return run_child(prefix, [&args]() {
+    for (size_t i = 2; i < a.size(); ++i) { args.push_back(unhex(a[i])); }
+    return run_child(cwd, prefix, [&args]() {
         std::vector<char const*> argv;
         for (auto const& s: args) { argv.push_back(s.c_str()); }
         argv.push_back(nullptr);
@@ -310,7 +313,8 @@ static Reg r_run_argv("run_argv", [](std::vector<std::string> const& a) -> std::
 });
 
 static Reg r_run_json("run_json", [](std::vector<std::string> const& a) -> std::string {
-    std::string prefix = unhex(a.at(0));
-    std::string json = unhex(a.at(1));
-    return run_child(prefix, [&json]() { return qpdfjob_run_from_json(json.c_str()); });
+    std::string cwd = unhex(a.at(0));
+    std::string prefix = unhex(a.at(1));
+    std::string json = unhex(a.at(2));
+    return run_child(cwd, prefix, [&json]() { return qpdfjob_run_from_json(json.c_str()); });
 });
